@@ -554,6 +554,7 @@ def mon_c11(tr):
     demotion => error reply, hold removed."""
     out = []
     pending = {}      # req -> step index of the grant
+    granted_at = {}   # req -> value of the key around the grant of a pending ack-lock
     cfg = 1
     seen = collections.defaultdict(list)     # registration index -> [(kind, ok)]
     for i, st in enumerate(tr.steps):
@@ -622,8 +623,91 @@ def mon_c11(tr):
                     if target_is_pending and not (rq["islock"] and rq["flag"] & 1 and not rq["flag"] & 2) and not (not rq["islock"] and False):
                         if mine and mine[0]["result"] != R["ACKW"] and not (rq["islock"] and rq["flag"] & 8 and rq["timeout"] == 0 and mine[0]["result"] == R["TIMEOUT"]):
                             out.append(("ack:pending-lockid-not-answered-ack-waiting", "request %d names a LockId whose acknowledgement is pending but was answered %d" % (rq["req"], mine[0]["result"]), i))
+        # ---- "any value change it made is undone": an ack-lock that carried a value operation and ends with an error
+        # (negative acknowledgement, ack timeout) must leave the value the key had before its grant, provided nothing
+        # else changed the value meanwhile
+        for rq_id, (kk, lid) in now_pending.items():
+            if rq_id not in pending and rq_id not in granted_at:
+                kb0 = st["before"]["keys"].get(kk)
+                ka0 = st["after"]["keys"].get(kk)
+                # the value before the step is the value before the grant only when nothing else in the step touched it:
+                # a fresh grant by the request itself, or a grant from the queue in a step whose own request carries no
+                # value operation and which serves no other value-carrying request of the key
+                own = st["req"] is not None and st["req"]["req"] == rq_id
+                quiet = (st["req"] is None or st["req"]["data"] in ("-", "") or st["req"]["key"] != kk) and \
+                    not [rp for rp in st["replies"] if rp["req"] != rq_id and tr.reqs.get(rp["req"], {}).get("key") == kk and tr.reqs.get(rp["req"], {}).get("data") not in ("-", "", None)] and \
+                    not [x for x, (k2, _) in now_pending.items() if k2 == kk and x != rq_id and x not in pending]
+                granted_at[rq_id] = dict(key=kk, before=kb0["data"] if kb0 else "nil", last=ka0["data"] if ka0 else "nil", disturbed=not (own or quiet))
+        for rq_id, gr in list(granted_at.items()):
+            ka0 = st["after"]["keys"].get(gr["key"])
+            cur = ka0["data"] if ka0 else "nil"
+            if rq_id in now_pending:
+                if cur != gr["last"]:
+                    gr["disturbed"] = True
+                gr["last"] = cur
+                continue
+            # left the pending state in this step
+            del granted_at[rq_id]
+            g = tr.reqs.get(rq_id)
+            mine = [rp for rp in st["replies"] if rp["req"] == rq_id]
+            # the failure paths of the property: negative acknowledgement (ERROR) and ack timeout (TIMEOUT)
+            if not g or g["data"] in ("-", "") or not mine or mine[-1]["result"] not in (R["TIMEOUT"], R["ERROR"]) or gr["disturbed"]:
+                continue
+            if any(rp["req"] == rq_id and rp["result"] == 0 for st0 in tr.steps[:i + 1] for rp in st0["replies"]):
+                continue        # it had been reported SUCCED before (a recorded defect of its own): no rollback is due
+            others = [x for x, (k2, _) in list(pending.items()) + list(now_pending.items()) if k2 == gr["key"] and x != rq_id]
+            if others or (st["req"] and st["req"]["req"] != rq_id and st["req"]["key"] == gr["key"] and st["req"]["data"] not in ("-", "")):
+                continue        # another pending value operation / a value-carrying request in the same step: not attributable
+            if not ka0 or ka0["locked"] == 0:
+                continue        # nobody holds the key any more: the value went with the last hold
+            # requests served by the wake-up pass of the same step report the value from immediately before their own
+            # operation, i.e. the value right after the rollback
+            served = [rp for rp in st["replies"] if rp["req"] != rq_id and rp["result"] == 0 and tr.reqs.get(rp["req"], {}).get("key") == gr["key"]]
+            if served:
+                cur = "nil" if served[0]["data"] in ("-", "nil") else served[0]["data"] + "/0/0"
+            if strip_aof(cur) != strip_aof(gr["before"]):
+                out.append(("ack:value-not-rolled-back:%s:%s" % (data_op(g["data"]), data_kind(gr["before"])),
+                            "ack-lock %d (%s on a key whose value was %s) ended with result %d but the key's value is %s instead of the value before its grant %s"
+                            % (rq_id, data_op(g["data"]), data_kind(gr["before"]), mine[-1]["result"], cur, gr["before"]), i))
         pending = now_pending
     return out
+
+
+DATA_OPS = {0: "SET", 1: "UNSET", 2: "INCR", 3: "APPEND", 4: "SHIFT", 5: "EXECUTE", 6: "PIPELINE", 7: "PUSH", 8: "POP"}
+
+
+def data_op(d):
+    """operation of a request's value frame ('x' + hex)"""
+    try:
+        b = bytes.fromhex(d[1:] if d.startswith("x") else d)
+        return DATA_OPS.get(b[4] & 0x3f, "OP%d" % (b[4] & 0x3f))
+    except Exception:
+        return "?"
+
+
+def data_kind(snapdata):
+    """kind of a stored value as printed in the snapshots: hex/commandType/isAof"""
+    if snapdata == "nil":
+        return "none"
+    f = snapdata.split("/")
+    if len(f) > 1 and f[1] == "1":
+        return "unset"
+    try:
+        b = bytes.fromhex(f[0][1:] if f[0].startswith("x") else f[0])
+    except Exception:
+        return "?"
+    fl = b[5] if len(b) > 5 else 0
+    k = "number" if fl & 1 else "array" if fl & 2 else "kv" if fl & 4 else "bytes"
+    return k + ("+props" if fl & 0x10 else "")
+
+
+def strip_aof(snapdata):
+    """the value a client can observe: the frame bytes; 'no value' and the UNSET marker are the same to a client; the
+    stored operation type and the persisted flag are bookkeeping"""
+    f = snapdata.split("/")
+    if snapdata == "nil" or (len(f) > 1 and f[1] == "1"):
+        return "none"
+    return f[0]
 
 
 def get_locked(k, lockid):
